@@ -316,6 +316,9 @@ var startStates = []string{
 	"[1 2 3] dup 1 2 getinterval",
 	"/x 2 def 5 dict begin /x 1 def",
 	"(abc) dup 0 2 getinterval 4 string",
+	// procedures bound while an operator was known under another name (the name is rebound / goes out of scope later)
+	"/n /add load def /x {1 2 n} bind def",
+	"/n /mul load def 3 dict begin /n /sub load def userdict /x {7 2 n} bind put",
 }
 
 var macroOps = []string{
